@@ -8,10 +8,15 @@ import re
 
 HERE = os.path.dirname(os.path.dirname(os.path.abspath(__file__)))
 matrix = {}
-for line in open(os.path.join(HERE, 'seeded', 'MATRIX.txt')):
-    m = re.match(r'(\S+) (\S+) exit=(\d+) (\d+)s', line)
-    if m:
-        matrix[m.group(1)] = (m.group(3), m.group(4))
+# the last complete run, then the last partial run (seeds added since)
+for fn in ('MATRIX.txt', 'MATRIX.partial.txt'):
+    fp = os.path.join(HERE, 'seeded', fn)
+    if not os.path.exists(fp):
+        continue
+    for line in open(fp):
+        m = re.match(r'(\S+) (\S+) exit=(\d+) (\d+)s', line)
+        if m:
+            matrix[m.group(1)] = (m.group(3), m.group(4))
 rows = ['| seed | property | what it needs in order to manifest | quick check |',
         '|---|---|---|---|']
 for d in sorted(glob.glob(os.path.join(HERE, 'seeded', 'C*'))):
